@@ -23,7 +23,7 @@ def space(tier):
     q = tier == 'quick'
     return {'orders': [1, 2, 3] if q else [1, 2, 3, 4], 'dims': [2, 3] if q else [1, 2, 3], 'rhs ranks': [1, 2],
             'guess ranks': 'all admissible vectors', 'solver': ['solve', 'lu'], 'repeats': [1, 2, 3],
-            'methods': ['als', 'mals(0,inf)', 'mals(1e-12,inf)', 'mals(1e-12,r) r=1..3']}
+            'methods': ['als', 'mals(0,inf)', 'mals(1e-12,inf)', 'mals(1e-12,r) and mals(0,r), r=1..3']}
 
 
 def cases(tier):
@@ -44,7 +44,7 @@ def cases(tier):
                             for solver in ('solve', 'lu'):
                                 meths = [('als', None, None)]
                                 if d >= 2:
-                                    meths += [('mals', 0, 'inf'), ('mals', 1e-12, 'inf')] + [('mals', 1e-12, r) for r in (1, 2, 3)]
+                                    meths += [('mals', 0, 'inf'), ('mals', 1e-12, 'inf')] + [('mals', t_, r) for r in (1, 2, 3) for t_ in (1e-12, 0)]
                                 for meth, thr, mr in meths:
                                     if not q and d == 4 and (solver == 'lu' or opk == 'ttbuilt') and meth == 'mals' and mr not in ('inf',):
                                         continue
@@ -208,7 +208,7 @@ def run_case(case, seed):
             if meth == 'als':
                 y = sle.als(op, xg, b2, repeats=1, solver=solver)
             else:
-                y = sle.mals(op, xg, b2, repeats=1, solver=solver, threshold=thr if thr else 1e-12, max_rank=mr)
+                y = sle.mals(op, xg, b2, repeats=1, solver=solver, threshold=thr if (thr or mr != np.inf) else 1e-12, max_rank=mr)
             if meta_problem(y) is None and list(y.row_dims) == list(dims):
                 r.close(key + ':fixed-point', vec(y), xs2, 1e-8)
             else:
